@@ -8,12 +8,12 @@ void harness_null(void)
 	INPUT_ARRAY(u8, bytes, ACB_BYTES);
 	INPUT_ARRAY(u8, counts, ACB_CALLS);
 	LHANullDecoder d;
-	u8 out[1024];
+	u8 *out = malloc(lha_null_decoder.max_read);      /* an object of exactly the declared max_read bytes */
 	size_t n;
 	ACB_SETUP(bytes, counts);
-	CHECK(lha_null_decoder.max_read == 1024, "harness buffer is exactly max_read bytes");
+	ASSUME(out != NULL);
 	lha_null_init(&d, any_cb, 0);
 	n = lha_null_read(&d, out);
-	CHECK(n <= 1024, "read returns at most max_read");
+	CHECK(n <= lha_null_decoder.max_read, "read returns at most max_read");
 	WITNESS("end");
 }
